@@ -97,6 +97,29 @@ Theorem C18_publish c s :
 Proof. exact (publish c s). Qed.
 Print Assumptions C18_publish.
 
+(* ---- life cycle: construct, publications, start, events, then repeatedly: stop, publications, start, events.  A publication made while the
+        instance is not running is a [new_data] step of the constructed / stopped state, so C18_publish (any state) applies;
+        start() makes the own entry equal to the own sequence number and moves nothing else; every phase keeps the
+        state well-formed, so C18_monotone applies from there on --------------------------------------------------------- *)
+Theorem C18_start c s :
+  self_seq (start c s) = self_seq s /\
+  vget (local (start c s)) (c_self c) = self_seq s /\
+  (forall k, k <> c_self c -> vget (local (start c s)) k = vget (local s) k) /\
+  next_timing (start c s) = next_timing s /\ mode (start c s) = mode s.
+Proof. exact (start_spec c s). Qed.
+Print Assumptions C18_start.
+
+Theorem C18_lifecycle_wf c last pubs h stopped_pubs h' :
+  let phase s k evs := run c (start c (Nat.iter k (new_data c) s)) evs in
+  wf c (phase (phase (construct last) pubs h) stopped_pubs h').
+Proof.
+  exact (wf_run c h' _ (wf_start c _ ((fix W (k : nat) := match k return wf c (Nat.iter k (new_data c) _) with
+     O => wf_run c h _ (wf_start c _ ((fix V (j : nat) := match j return wf c (Nat.iter j (new_data c) _) with
+            O => wf_construct c last | S j' => wf_new_data c _ (V j') end) pubs))
+   | S k' => wf_new_data c _ (W k') end) stopped_pubs))).
+Qed.
+Print Assumptions C18_lifecycle_wf.
+
 (* ---- expiry of a suppression period: a sync Interest is emitted iff the local vector is newer in some entry
         than the merge of the vectors heard during that period (Spec.heard over the observable trace);
         before the expiry nothing happens ------------------------------------------------------------------------ *)
